@@ -25,6 +25,8 @@ def Err.name : Err → String
 
 abbrev R := Except Err
 
+deriving instance DecidableEq for Except
+
 structure SI where
   bits : Nat
   stride : Nat
